@@ -268,6 +268,8 @@ func TestC18_R_Basics(t *testing.T) {
 		"zero":   {Kind: fsFile},
 		"ln":     {Kind: fsSymlink, Target: "f"},
 		"dangle": {Kind: fsSymlink, Target: "/no/such/target"},
+		"long1":  {Kind: fsSymlink, Target: strings.Repeat("a/", 512) + "b"}, // 1025 bytes
+		"long2":  {Kind: fsSymlink, Target: strings.Repeat("../x/", 819)},    // 4095 bytes: the longest a symlink can hold on Linux
 		"lndir":  {Kind: fsSymlink, Target: "sub"},
 		"sub":    {Kind: fsDir, Kids: map[string]*fsNode{"c d": {Kind: fsFile, Data: lcgBytes(3000, 1, 0)}, ".h": {Kind: fsSymlink, Target: ".."}}},
 	}}
